@@ -22,7 +22,7 @@ DECIDING = ["jobs_compared", "fresh_processes"]
 MIN_DECIDED_RATIO = 0.8
 FEATURES = ("assign", "agg", "control", "print", "fail", "rewrite")
 RULE = (
-    "random sequences of 2-6 (csvpath, file) jobs from the program generators (time/random functions excluded) over files whose header cells "
+    "random sequences of 2-6 (csvpath, file) jobs from the program generators (time/random functions excluded; 30% extend their lines, 30% print the headers, 10% count duplicate lines, 10% read a stack before first pushing to it) over files whose header cells "
     "contain quotes, delimiters, spaces and newlines; each job's result tuple (lines, variables, printouts, errors, validity, counters, headers, "
     "line count) in-sequence vs fresh-process cold-cache twin vs fresh-process warm-cache vs direct CsvPath() vs repeat; plus the sub-scenario "
     "'same path, new bytes'. Non-trivial: a sequence of >= 2 jobs; distinct = distinct (program skeletons, header shapes)."
